@@ -131,3 +131,33 @@ class Job:
         rep = Report(E)
         self.fn(E, rep, tier)
         return rep.result()
+
+
+def run_native(recipe, args=None, timeout=600):
+    """Run a native replay recipe with /venv/bin/python against /repo; returns its JSON verdict."""
+    import json
+    import os
+    import subprocess
+    root = os.path.dirname(os.path.dirname(os.path.abspath(__file__)))
+    cmd = ['/venv/bin/python', os.path.join(root, 'replay', 'native.py'), recipe, json.dumps(args or {})]
+    env = dict(os.environ, PYTHONPATH=os.environ.get('PYVC_REPO', '/repo'), OMP_NUM_THREADS='2')
+    try:
+        p = subprocess.run(cmd, capture_output=True, text=True, timeout=timeout, env=env)
+        line = [l for l in p.stdout.splitlines() if l.startswith('{')]
+        if line:
+            return json.loads(line[-1])
+        return {'reproduced': False, 'error': (p.stderr or p.stdout)[-400:]}
+    except subprocess.TimeoutExpired:
+        return {'reproduced': False, 'error': 'native replay timed out'}
+
+
+def model_floats(model):
+    """z3 model values ('1/2', '0.5?', '-3') -> floats."""
+    from fractions import Fraction
+    out = {}
+    for k, v in (model or {}).items():
+        try:
+            out[k] = float(Fraction(v.replace('?', '')))
+        except Exception:
+            pass
+    return out
